@@ -50,9 +50,11 @@ func NewClient(w io.Writer, r io.Reader) *Client {
 func (c *Client) Send(b []byte) ([]byte, error) {
 	c.Lock()
 	defer c.Unlock()
+	verifGate("send:locked")
 
 	if err := c.w.Write(b); err != nil {
 		return nil, err
 	}
+	verifGate("send:written")
 	return c.r.Read()
 }
